@@ -37,18 +37,20 @@ TRUSTED = ["modelled, not verified: SBuf/Tokenizer/CharacterSet primitives are m
            "(takeWhile/dropWhile/reverse); the correspondence run compares the composed parser on every case",
            "character sets, method table, method/URI length limits are dumped from the running code every run"]
 ASSUMPTIONS = ["relaxed_header_parser is 0 or 1 (the warning value -1 parses like 1)",
+               "request_header_max_size >= 34 for the theorem (smaller limits are still generated: known finding C21-tiny-limit)",
                "a rejected outcome is compared by status code only: the caller (ConnStateData::parseHttpRequest) discards the whole "
                "input buffer on rejection, so the consumed length of a rejected parse has no effect",
                "the parser object is not used again once it is done (Http1::Server::parseOneRequest creates a new one)"]
 MANIFEST = {
-    "text": "partial: parse_segments_eq_oneShot_partial proves, for every byte string, every segmentation, both modes and every limit, "
-            "that the modelled parser (skipGarbageLines, parseRequestFirstLine with all field parsers, grabMimeBlock/headersEnd, "
-            "cleanMimePrefix, unfoldMime, the stage machine and the inBuf=remaining() checkpoint) reports the same outcome "
-            "incrementally and in one shot, EXCEPT in two regions where the real code does depend on segmentation (both proved as "
-            "counterexamples and re-confirmed on the real parser every run): relaxed mode with a segment ending in a lone CR "
-            "of a leading empty line, and a first line that reaches request_header_max_size before its LF arrives; with the two candidate "
-            "repairs (notes/fixes) the unrestricted theorem parse_segments_eq_oneShot_fixed applies",
-    "note": "trusted: Lean kernel, table dump, C++ harness, python oracle; the list-level model of Tokenizer/SBuf is tied to the code by "
+    "text": "full: parse_segments_eq_oneShot proves, for both modes, every byte string, every segmentation and every "
+            "request_header_max_size >= 34, that the modelled parser as it is now (skipGarbageLines, parseRequestFirstLine with all "
+            "field parsers and the length check, grabMimeBlock/headersEnd, cleanMimePrefix, unfoldMime, the stage machine and the "
+            "inBuf=remaining() checkpoint; the repairs 37a6911 and 63b469c are probed in the staged code every run and the proof "
+            "uses the probed flags) reports the same outcome incrementally and in one shot. Only a limit below 34 bytes is excluded "
+            "(tiny_limit_counterexample, known finding C21-tiny-limit). parse_segments_eq_oneShot_partial is the general form for "
+            "an unrepaired parser with its two input regions as hypotheses; the former counterexamples are kept as historical "
+            "statements about the model with the repair switches off, and their witnesses as regression cases in the corpus",
+    "note": "trusted: Lean kernel, table/flag dump, C++ harness, python oracle; the list-level model of Tokenizer/SBuf is tied to the code by "
             "the differential run only",
     "technique": "Lean 4 proof (resume/monotonicity lemmas over the stage machine) + table translator + ASan differential run; "
                  "oracle = incremental vs one-shot on the real parser",
@@ -252,7 +254,7 @@ def random_split(rng, head, ways):
     return segs
 
 
-def _cases(rng, tier):
+def cases(rng, tier):
     thorough = tier == "thorough"
     nheads = 900 if thorough else 230
     for n in range(nheads):
@@ -323,18 +325,6 @@ def _cases(rng, tier):
     for g in (b"\r", b"\n", b"\r\n", b"\r\r\n", b"\n\r", b"\r\n\r", b"\n\r\n", b"\r\n\r\n", b" \r\n"):
         for relaxed in (False, True):
             yield from single_cuts(relaxed, DEFAULT_LIMIT, g + b"GET / HTTP/1.1\r\n\r\n")
-
-
-def cases(rng, tier):
-    """the generated cases, with those that carry a known-finding signature moved to the end: the framework examines the
-    first failing cases in order, so failures outside the known regions must come first to be seen"""
-    late = []
-    for l in _cases(rng, tier):
-        if classify(l, "", "") is not None:
-            late.append(l)
-        else:
-            yield l
-    yield from late
 
 
 def parse_outcome(txt):
@@ -427,6 +417,8 @@ def tiny_limit_signature(relaxed, limit, segs):
 
 
 def classify(line, impl, why):
+    """C21-cr-split and C21-line-limit are FIXED (commits 37a6911, 63b469c): returning their ids only labels a regression,
+    it suppresses nothing; C21-tiny-limit is the one known finding"""
     if not line.startswith("p ") or impl.startswith("abort:"):
         return None
     try:
@@ -443,9 +435,7 @@ def classify(line, impl, why):
 
 
 def shrink(line):
-    """merge adjacent segments first; bytes are dropped only from cases that carry no known-finding signature
-    (a case that keeps failing after the boundary carrying the signature is merged away fails for another reason
-    and is then minimised and reported in full)"""
+    """merge adjacent segments first; bytes are dropped only from cases that carry no finding signature"""
     w = line.split()
     head, segs = w[:3], w[3:]
     for i in range(len(segs) - 1):
